@@ -7,7 +7,7 @@ Token grammar (identical to `lean/Drivers/C11.lean`):
   recipe := D arg val | I arg val        srecipe := U recipe | M n recipe^n
 
 Realisation (injective, so that `==` on the real objects is equality of descriptors):
-  grid with m points and tag g :  t_j = j + g/8              (g in 0..7, m >= 1)
+  grid with m points and tag g :  t_j = j + g/8 (+ g/16 for interior points)   (g in 0..7, m >= 1)
   values of an observation with tag r and shape S :  (r+1) * (1, 2, …, prod S) reshaped to S
 """
 from __future__ import annotations
@@ -37,7 +37,11 @@ def nv(xs):
 
 
 def grid(m, g):
-    return np.arange(m, dtype=float) + g / 8.0
+    """m points tagged g: a translate of 0..m-1 whose interior points are moved a little further, so
+    that the *normalised* grid depends on g too (a stale `argvals_stand` is then visible)."""
+    t = np.arange(m, dtype=float) + g / 8.0
+    t[1:-1] += g / 16.0
+    return t
 
 
 def obs_values(shape, r):
